@@ -360,7 +360,7 @@ class Problem:
 def int_weights(vals):
     if any((not math.isfinite(v)) or v < -1e-12 for v in vals):
         return [0] * len(vals)
-    fr = [F(max(v, 0.0)).limit_denominator(10 ** 6) for v in vals]
+    fr = [F(max(v, 0.0)).limit_denominator(2 ** 21) for v in vals]
     den = 1
     for x in fr:
         den = den * x.denominator // math.gcd(den, x.denominator)
@@ -544,7 +544,11 @@ def run_roll(prob, job, script=None):
     m = prob.m
     cap, start = job["cap"], job["start"]
     rng = random.Random(job["seed"])
-    random.seed(job["seed"] + 17)          # POMDPPolicy.run_on samples the initial state from the global generator
+    random.seed(job["seed"] + 17)
+    if job.get("gen") == "module":         # the default generator of run_on: the `random` module itself
+        rng = random
+    elif job.get("gen") == "system":
+        rng = random.SystemRandom()
     env, pol = prob.env, prob.policy
     sc = None
     if script is not None:
@@ -552,6 +556,8 @@ def run_roll(prob, job, script=None):
         env = ScriptedEnv(prob, sc)
         pol = ScriptedMDPPolicy(prob, sc) if m["kind"] == "mdp" else scripted_pomdp_policy(prob, sc)
     kw = dict(max_steps=cap, rng=rng)
+    if job.get("gen") == "default":
+        del kw["rng"]
     if start != 0:
         kw["initial_state"] = start_label(prob, start)
     ag0 = job.get("ag0") or []
@@ -1105,9 +1111,9 @@ class Pipeline:
 def mc_cases(rng, tier):
     quick = tier == "quick"
     insts, cases = [], []
-    plan = [("mdp", None)] * (40 if quick else 140) + [("mdpdet", None)] * (12 if quick else 40)
+    plan = [("mdp", None)] * (60 if quick else 250) + [("mdpdet", None)] * (16 if quick else 80)
     for pk in ("ctrl", "qb", "alpha"):
-        plan += [("pomdp", pk)] * (14 if quick else 45)
+        plan += [("pomdp", pk)] * (18 if quick else 80)
     for kind, pk in plan:
         if kind == "pomdp":
             m = make_pomdp_inst(rng, pk, small=True)
@@ -1232,9 +1238,9 @@ def add_scripted_jobs(pipe, rng, insts, cases, behs, per_case):
 def add_random_jobs(pipe, rng, tier, base_iid):
     """pipeline B on bigger instances: real generators, all representations"""
     quick = tier == "quick"
-    plan = [("mdp", None)] * (70 if quick else 400) + [("mdpdet", None)] * (25 if quick else 120)
+    plan = [("mdp", None)] * (120 if quick else 900) + [("mdpdet", None)] * (40 if quick else 250)
     for pk in ("ctrl", "qb", "alpha"):
-        plan += [("pomdp", pk)] * (22 if quick else 110)
+        plan += [("pomdp", pk)] * (35 if quick else 220)
     for kind, pk in plan:
         if kind == "pomdp":
             m = make_pomdp_inst(rng, pk, small=False)
@@ -1252,7 +1258,8 @@ def add_random_jobs(pipe, rng, tier, base_iid):
                 maxcap = min(maxcap, 5)
             caps = [0, 1, rng.randint(2, maxcap), maxcap]
             for cap in caps:
-                pipe.execute(dict(kind="roll", iid=iid, rep=rep, cap=cap, start=0, ag0=[], seed=rng.randrange(10 ** 6)))
+                pipe.execute(dict(kind="roll", iid=iid, rep=rep, cap=cap, start=0, ag0=[], seed=rng.randrange(10 ** 6),
+                                  gen=rng.choice(["Random"] * 7 + ["module", "default", "system"])))
             for s in dict.fromkeys(given):
                 if s not in listed:
                     continue
@@ -1271,7 +1278,7 @@ def add_random_jobs(pipe, rng, tier, base_iid):
 
 
 def add_return_jobs(pipe, rng, tier):
-    n = 60 if tier == "quick" else 400
+    n = 100 if tier == "quick" else 1000
     for i in range(n):
         L = rng.choice([0, 1, 2, 3, 4, 5, 6, 7])
         GN, GD = rng.choice([(1, 2), (3, 4), (1, 1), (9, 10), (1, 4), (0, 1)])
